@@ -63,6 +63,41 @@ theorem fire_st (s : State) (f g : Nat) : (fire s f).st g = s.st g := by
 theorem fire_next (s : State) (f : Nat) : (fire s f).next = s.next := by
   unfold fire; cases hk : (s.heap f).kind <;> simp [hk, State.setCell]
 
+/-! ## What a completion by the environment does -/
+
+/-- the environment completes a pending asyncio future: its callbacks are scheduled on the loop -/
+theorem complete_pending_aio (s : State) (f : Nat) (o : St) (ho : o ≠ .pending) (hp : (s.heap f).st = .pending)
+    (hk : (s.heap f).kind = .aio) :
+    (complete s f o).1 = { s with
+      heap := fun x => if x = f then { kind := .aio, st := o, cbs := [] } else s.heap x,
+      ready := s.ready ++ (s.heap f).cbs.map (fun cb => Ready.call cb f),
+      sets := f :: s.sets } := by
+  cases o with
+  | pending => exact absurd rfl ho
+  | cancelled => simp [complete, cancelFut, fire, hp, hk, State.setCell]; funext x; by_cases hx : x = f <;> simp [hx]
+  | result v => simp [complete, setOutcome, fire, hp, hk, State.setCell]; funext x; by_cases hx : x = f <;> simp [hx]
+  | exc e => simp [complete, setOutcome, fire, hp, hk, State.setCell]; funext x; by_cases hx : x = f <;> simp [hx]
+
+theorem complete_pending_kiwi (s : State) (f : Nat) (o : St) (ho : o ≠ .pending) (hp : (s.heap f).st = .pending)
+    (hk : (s.heap f).kind = .kiwi) :
+    (complete s f o).1 = { s with
+      heap := fun x => if x = f then { kind := .kiwi, st := o, cbs := [] } else s.heap x,
+      stack := (s.heap f).cbs.map (fun cb => (cb, f)) ++ s.stack,
+      sets := f :: s.sets } := by
+  cases o with
+  | pending => exact absurd rfl ho
+  | cancelled => simp [complete, cancelFut, fire, hp, hk, State.setCell]; funext x; by_cases hx : x = f <;> simp [hx]
+  | result v => simp [complete, setOutcome, fire, hp, hk, State.setCell]; funext x; by_cases hx : x = f <;> simp [hx]
+  | exc e => simp [complete, setOutcome, fire, hp, hk, State.setCell]; funext x; by_cases hx : x = f <;> simp [hx]
+
+theorem complete_done_eq (s : State) (f : Nat) (o : St) (ho : o ≠ .pending) (hp : (s.heap f).st ≠ .pending) :
+    (complete s f o).1 = { s with sets := f :: s.sets } := by
+  cases o with
+  | pending => exact absurd rfl ho
+  | cancelled => simp [complete, cancelFut, hp]
+  | result v => simp [complete, setOutcome, hp]
+  | exc e => simp [complete, setOutcome, hp]
+
 /-! ## A future that is done never changes (every operation of the model) -/
 
 /-- allocation only grows and a future that is done keeps its state -/
